@@ -77,7 +77,7 @@ class C15(Check):
     rule = ("for every skeleton query (every 'fusionx' query up to the stated size plus 5 hand-shaped ones with "
             "result terminals, First/Count, packages, plain function calls) and EVERY placement of up to K MetaData "
             "wrappers on its expression nodes (any node incl. inside lambda bodies and operator arguments, the same "
-            "node twice = adjacent nesting, each wrapper empty or carrying a unique dictionary): extract_metadata "
+            "node twice = adjacent nesting, each wrapper empty, carrying a unique dictionary, or carrying a dictionary equal to another wrapper's): extract_metadata "
             "must return the pristine skeleton (dump-equal) and the multiset of all dictionaries with every outer "
             "wrapper before the wrappers inside its source; remove_empty_metadata must return the skeleton with "
             "exactly the non-empty wrappers in place and leave the heap graph of its argument (node identity, "
@@ -104,9 +104,9 @@ class C15(Check):
         npos = len(nodes)
         for k in range(0, K + 1):
             for positions in itertools.combinations_with_replacement(range(npos), k):
-                for empties in itertools.product((False, True), repeat=k):
-                    placements = [(p, {} if e else {"id": i, "s": f"v{i}"}) for i, (p, e) in
-                                  enumerate(zip(positions, empties))]
+                for empties in itertools.product((False, True, "same"), repeat=k):
+                    placements = [(p, {} if e is True else ({"same": 1} if e == "same" else {"id": i, "s": f"v{i}"}))
+                                  for i, (p, e) in enumerate(zip(positions, empties))]
                     canon = f"{skel}|{positions}|{empties}"
                     a = build(skel, placements)
                     res["n"] += 1
@@ -128,7 +128,7 @@ class C15(Check):
                     else:
                         for i, (pi, di) in enumerate(placements):
                             for j, (pj, dj) in enumerate(placements):
-                                if i == j or not di or not dj:
+                                if i == j or not di or not dj or "same" in di or "same" in dj:
                                     continue
                                 # wrapper j is outside wrapper i: j wraps an ancestor, or the same node later
                                 outer = (pi in sub[pj] and pi != pj) or (pi == pj and j > i)
@@ -149,7 +149,7 @@ class C15(Check):
                     if explore.heap_key([a], [None], lambda v: "?") != before:
                         res["viol"].append({"kind": "remove-empty-mutated-its-argument", "canon": canon,
                                             "msg": ast.unparse(a)[:200]})
-                    res["oc"].append(f"k={k}:empties={sum(empties)}")
+                    res["oc"].append(f"k={k}:empties={sum(1 for e in empties if e is True)}")
         res["oc"] = sorted(set(res["oc"])) if not res["viol"] else res["oc"][:3]
         res["viol"] = res["viol"][:30]
         return res
